@@ -56,6 +56,27 @@ def make_signal(prog, clsname, *, n=N, nchan=NCHAN, extra=(), start_time=True, f
     return ObjV(ci, attrs, tag=name)
 
 
+DISCREPANCIES = []      # (class, storage attribute, value handed to the constructor, value it stored)
+
+
+def report_discrepancies(run, prog, pid):
+    """One obligation per property run: every model signal built for this property was also pushed through its class's own
+    constructor, and the enumerated state the constructor stored is the state it was given."""
+    seen = set()
+    for cname, attr, want, got in DISCREPANCIES:
+        if (cname, attr, want, got) in seen:
+            continue
+        seen.add((cname, attr, want, got))
+        ci = prog.cls(cname)
+        init = ci.find_method("__init__")
+        run.ob("RC", init.where if init is not None else cname, f"{cname}(..., {attr.lstrip('_')}={want!r})",
+               "the constructor chain stores the alignment / polarisation basis it is given (a keyword dropped on the way up silently "
+               "changes channel labels or the basis of every such signal)", False, found=f"stored {got!r}", expected=repr(want), nontrivial=True)
+    if not seen:
+        run.ob("RC", "pulsarbat/core.py (signal constructors)", "enumerated state of every model signal vs. its class's own constructor",
+               "the constructor chain stores the alignment / polarisation basis it is given", True)
+
+
 def complete_from_constructor(prog, ci, attrs, data):
     """Instance attributes the class's own constructor / setters create beyond the modelled storage layout (caches,
     flags) are taken over from an evaluation of the constructor, so that a class that grows such an attribute is still
@@ -75,6 +96,17 @@ def complete_from_constructor(prog, ci, attrs, data):
         for k, v in obj.attrs.items():
             if k not in attrs:
                 attrs[k] = v
+            elif isinstance(v, StrV) and isinstance(attrs[k], StrV) and v.s != attrs[k].s:
+                # enumerated state (alignment, polarisation basis): the class's own chain of constructors and setters stores
+                # something else than it was given -- a keyword lost on the way up.  The model keeps what was asked for (so that
+                # the property's own rules see the mismatch in results rebuilt through the constructor) and the discrepancy
+                # is reported as an obligation of every property that uses such a signal (main.py).
+                if k == "_freq_align":
+                    nch = sp.sympify(data.shape[1]) if getattr(data, "shape", None) is not None and len(data.shape) > 1 else None
+                    even = nch is not None and sp.simplify(sp.Mod(nch, 2)) == 0
+                    if not even:
+                        continue          # an odd (or undecided) channel count is normalised to 'center' by design
+                DISCREPANCIES.append((ci.name, k, attrs[k].s, v.s))
     except Exception:
         pass
 
